@@ -852,4 +852,63 @@ example : slashMw (.addWith ⟨false, 301⟩) "/users".toList "discount=100%".to
 example : slashRequest (.addWith ⟨false, 301⟩) { path := "/example.com/x".toList } ⟨1, 0, [], false⟩ [] =
     .redirect 301 "/example.com/x/".toList := by decide
 
+/-! ## requests that name a regular file (round 8)
+
+The index page `index.html` is the one file name the static handler gives a meaning of its own (it is what a
+directory request is answered with).  Asked for by name it is a regular file like any other: the handler serves
+it and produces no `Location` at all — whatever `URL.Path` looked like, so also for `//example.com/../index.html`.
+The only redirect of the handler is the directory redirect, and it is `sanitizeURI (URL.Path ++ "/")`. -/
+
+/-- **C17_static_file_no_redirect** — a request whose cleaned file name is a regular file of the tree is answered
+    with that file, for every request path: no redirect, hence no `Location`. -/
+theorem C17_static_file_no_redirect (t : Tree) (p up : List Char)
+    (h : stat t (clean (trimPrefixSlash p)) = .file) : staticServe t p up = .file := by
+  simp only [staticServe, h, fsFile]
+  simp
+
+/-- **C17_static_redirect_only_dir** — if the static handler (with or without path unescaping) redirects, then the
+    name asked for is a DIRECTORY of the tree, the request path does not end in `/`, the code is 301 and the
+    target is the sanitised request path plus `/`.  In particular no file name (no `…/index.html`) is ever
+    redirected. -/
+theorem C17_static_redirect_only_dir (d : Bool) (t : Tree) (param up : List Char) (code : Nat) (loc : List Char)
+    (h : staticHandler d t param up = .redirect code loc) :
+    ∃ p, (if d then some param else pathUnescape param) = some p ∧
+      stat t (clean (trimPrefixSlash p)) = .dir ∧ endsWithSlash up = false ∧ up ≠ [] ∧
+      code = 301 ∧ loc = sanitizeURI (up ++ ['/']) := by
+  have key : ∀ p, staticServe t p up = .redirect code loc →
+      stat t (clean (trimPrefixSlash p)) = .dir ∧ endsWithSlash up = false ∧ up ≠ [] ∧
+      code = 301 ∧ loc = sanitizeURI (up ++ ['/']) := by
+    intro p hs
+    simp only [staticServe] at hs
+    split at hs
+    · exact Out.noConfusion hs
+    · next st hne =>
+      split at hs
+      · next hc =>
+        simp only [Bool.and_eq_true, beq_iff_eq, Bool.not_eq_true', List.isEmpty_eq_false_iff] at hc
+        obtain ⟨hl, hcode⟩ := redirect_loc hs
+        exact ⟨hc.1.1, hc.2, hc.1.2, hcode, hl⟩
+      · unfold fsFile at hs
+        split at hs
+        · exact Out.noConfusion hs
+        · exact Out.noConfusion hs
+        · split at hs <;> exact Out.noConfusion hs
+  unfold staticHandler at h
+  cases d with
+  | true => simp only [if_true] at h ⊢; exact ⟨param, rfl, key param h⟩
+  | false =>
+    simp only [Bool.false_eq_true, if_false, staticDir] at h ⊢
+    split at h
+    · exact Out.noConfusion h
+    · next p hp => exact ⟨p, hp, key p h⟩
+
+-- the index page behind a prefix that looks like another host and is cancelled by a dot segment: served, not redirected
+example : runReq (.static false ⟨[".".toList, "a".toList], ["index.html".toList, "a/index.html".toList]⟩
+    "/example.com/%2e%2e/index.html".toList "//example.com/../index.html".toList) = .file := by decide
+example : runReq (.static false ⟨[".".toList, "a".toList], ["index.html".toList, "a/index.html".toList]⟩
+    "\\example.com/../a/index.html".toList "/\\example.com/../a/index.html".toList) = .file := by decide
+-- the directory of that index page IS redirected, and the target is sanitised
+example : runReq (.static false ⟨[".".toList, "a".toList], ["index.html".toList, "a/index.html".toList]⟩
+    "/example.com/../a".toList "//example.com/../a".toList) = .redirect 301 "/example.com/../a/".toList := by decide
+
 end C17
